@@ -9,38 +9,37 @@ EXTENDS Integers, Sequences, FiniteSets, Json, TLC
 
 Keys == <<"k1", "k2", "k3">>
 N == Len(Keys)
-VARIABLES stage,   \* <<layer, key index>> while writing, then "flushed2", "compacted", "retired", "done"
+VARIABLES phase,   \* "write" | "flushed2" | "compacted" | "retired" | "reopened" | "done"
+          layer, idx,   \* while writing: which layer, which key comes next
           abs,     \* key -> value token or "NONE"
           h
-vars == <<stage, abs, h>>
+vars == <<phase, layer, idx, abs, h>>
 
 St == [k \in {Keys[i] : i \in 1..N} |-> abs[k]]
 Rec(a, op) == [a |-> a, op |-> op, st |-> [k \in {Keys[i] : i \in 1..N} |-> abs'[k]], seq |-> 0]
 
-Init == stage = <<1, 1>> /\ abs = [k \in {Keys[i] : i \in 1..N} |-> "NONE"] /\ h = <<>>
+Init == phase = "write" /\ layer = 1 /\ idx = 1 /\ abs = [k \in {Keys[i] : i \in 1..N} |-> "NONE"] /\ h = <<>>
 
-Advance(l, i) == IF i < N THEN <<l, i + 1>> ELSE <<l, N + 1>>
 \* per key and layer: put a value (layer-specific, so versions can be told apart), delete, or skip
-WriteKey == /\ Len(stage) = 2 /\ stage[2] <= N
-            /\ LET l == stage[1]
-                   i == stage[2]
-                   k == Keys[i]
-               IN \/ /\ abs' = [abs EXCEPT ![k] = IF l = 1 THEN "v1" ELSE "v2"]
-                     /\ h' = Append(h, Rec("put", <<[k |-> k, v |-> IF l = 1 THEN "v1" ELSE "v2"]>>))
+WriteKey == /\ phase = "write" /\ idx <= N
+            /\ LET k == Keys[idx]
+               IN \/ /\ abs' = [abs EXCEPT ![k] = IF layer = 1 THEN "v1" ELSE "v2"]
+                     /\ h' = Append(h, Rec("put", <<[k |-> k, v |-> IF layer = 1 THEN "v1" ELSE "v2"]>>))
                   \/ /\ abs' = [abs EXCEPT ![k] = "NONE"]
                      /\ h' = Append(h, Rec("delete", <<[k |-> k, v |-> "TOMB"]>>))
                   \/ UNCHANGED <<abs, h>>
-            /\ stage' = Advance(stage[1], stage[2])
-FlushLayer == /\ Len(stage) = 2 /\ stage[2] = N + 1
-              /\ h' = Append(h, Rec("flush", <<>>)) /\ UNCHANGED abs
-              /\ stage' = IF stage[1] = 1 THEN <<2, 1>> ELSE <<"flushed2">>
-CompactCall == /\ stage = <<"flushed2">>
+            /\ idx' = idx + 1 /\ UNCHANGED <<phase, layer>>
+FlushLayer == /\ phase = "write" /\ idx = N + 1
+              /\ UNCHANGED abs /\ h' = Append(h, Rec("flush", <<>>))        \* (abs' must be fixed before Rec reads it)
+              /\ IF layer = 1 THEN layer' = 2 /\ idx' = 1 /\ phase' = "write"
+                 ELSE phase' = "flushed2" /\ UNCHANGED <<layer, idx>>
+CompactCall == /\ phase = "flushed2" /\ UNCHANGED abs
                /\ \/ h' = Append(h, Rec("compact", <<>>))
                   \/ \E lo \in 1..N, hi \in 1..N : h' = Append(h, Rec("compactsub", <<[k |-> Keys[lo], v |-> Keys[hi]]>>))
-               /\ UNCHANGED abs /\ stage' = <<"compacted">>
-RetireStep == stage = <<"compacted">> /\ h' = Append(h, Rec("retire", <<>>)) /\ UNCHANGED abs /\ stage' = <<"retired">>
-Reopen == stage = <<"retired">> /\ h' = Append(h, Rec("reopen", <<>>)) /\ UNCHANGED abs /\ stage' = <<"reopened">>
-Emit == stage = <<"reopened">> /\ PrintT(<<"BEHAVIOUR", ToJson(h)>>) /\ stage' = <<"done">> /\ UNCHANGED <<abs, h>>
+               /\ phase' = "compacted" /\ UNCHANGED <<layer, idx>>
+RetireStep == phase = "compacted" /\ UNCHANGED abs /\ h' = Append(h, Rec("retire", <<>>)) /\ phase' = "retired" /\ UNCHANGED <<layer, idx>>
+Reopen == phase = "retired" /\ UNCHANGED abs /\ h' = Append(h, Rec("reopen", <<>>)) /\ phase' = "reopened" /\ UNCHANGED <<layer, idx>>
+Emit == phase = "reopened" /\ PrintT(<<"BEHAVIOUR", ToJson(h)>>) /\ phase' = "done" /\ UNCHANGED <<abs, h, layer, idx>>
 
 Next == WriteKey \/ FlushLayer \/ CompactCall \/ RetireStep \/ Reopen \/ Emit
 Spec == Init /\ [][Next]_vars
